@@ -31,76 +31,96 @@ where
     | [] => []
     | (n, v) :: r => (n, erase v) :: eraseFields r
 
+/-- leading pointer levels of a type (for value → pointer positions: `T → **U` wraps twice) -/
+def stripPtrs (env : TEnv) : Nat → Ty → Nat × Ty
+  | 0, t => (0, t)
+  | fuel+1, t =>
+    match under env t with
+    | .ptr e => let (k, c) := stripPtrs env fuel e; (k + 1, c)
+    | _ => (0, t)
+
+def wrapPtrs : Nat → Val → Val
+  | 0, v => v
+  | k+1, v => .ptr .none (wrapPtrs k v)
+
 mutual
-  /-- the structural image of value `v` of type `s` in type `t`; `none` = the types have no structural mapping -/
-  def specMap (env : TEnv) : Nat → Ty → Ty → Val → Option Val
-    | 0, _, _, _ => none
-    | fuel+1, s, t, v =>
-      match under env s, under env t with
-      | .basic k, .basic k' => if k == k' then some v else none
-      | .ptr se, .ptr te =>
-        (match v with
-         | .nil => some .nil
-         | .ptr _ x => (specMap env fuel se te x).map (.ptr .none)
-         | _ => none)
-      | .ptr se, ut =>
-        -- pointer to value (only generated with useZeroValueOnPointerInconsistency)
-        let _ := ut
-        (match v with
-         | .nil => some (zeroVal env 64 t)
-         | .ptr _ x => specMap env fuel se t x
-         | _ => none)
-      | _, .ptr te => (specMap env fuel s te v).map (.ptr .none)
-      | .slice se, .slice te =>
-        (match v with
-         | .nil => some .nil
-         | .slice _ vs => (specList env fuel se te vs).map (.slice .none)
-         | _ => none)
-      | .array _ se, .slice te =>
-        (match v with
-         | .arr vs => (specList env fuel se te vs).map (.slice .none)
-         | _ => none)
-      | .map sk sv, .map tk tv =>
-        (match v with
-         | .nil => some .nil
-         | .map _ kvs => (specEntries env fuel sk sv tk tv kvs).map (.map .none)
-         | _ => none)
-      | .struct _, .struct tfs =>
-        (match v with
-         | .struct fs => (specFields env fuel s fs tfs.toList).map .struct
-         | _ => none)
+  /-- the structural image of value `v` of type `s` in type `t`, by recursion on the VALUE (finite tree);
+      `none` = the types have no structural mapping at this value.  A non-pointer source meeting a pointer
+      target is wrapped into as many (non-nil) pointers as the target has leading pointer levels. -/
+  def specMap (env : TEnv) (s t : Ty) : Val → Option Val
+    | .basic r =>
+      let (k, core) := stripPtrs env 16 t
+      (match under env s, under env core with
+       | .basic k1, .basic k2 => if k1 == k2 then some (wrapPtrs k (.basic r)) else none
+       | _, _ => none)
+    | .nil =>
+      (match under env s with
+       | .ptr _ =>
+         (match under env t with
+          | .ptr _ => some .nil
+          | _ => some (zeroVal env 64 t))
+       | .slice _ =>
+         let (k, core) := stripPtrs env 16 t
+         (match under env core with | .slice _ => some (wrapPtrs k .nil) | _ => none)
+       | .map _ _ =>
+         let (k, core) := stripPtrs env 16 t
+         (match under env core with | .map _ _ => some (wrapPtrs k .nil) | _ => none)
+       | _ => none)
+    | .ptr _ x =>
+      (match under env s, under env t with
+       | .ptr se, .ptr te => (specMap env se te x).map (.ptr .none)
+       | .ptr se, _ => specMap env se t x
+       | _, _ => none)
+    | .slice _ vs =>
+      let (k, core) := stripPtrs env 16 t
+      (match under env s, under env core with
+       | .slice se, .slice te => (specList env se te vs).map (fun r => wrapPtrs k (.slice .none r))
+       | _, _ => none)
+    | .arr vs =>
+      let (k, core) := stripPtrs env 16 t
+      (match under env s, under env core with
+       | .array _ se, .slice te => (specList env se te vs).map (fun r => wrapPtrs k (.slice .none r))
+       | _, _ => none)
+    | .map _ kvs =>
+      let (k, core) := stripPtrs env 16 t
+      (match under env s, under env core with
+       | .map sk sv, .map tk tv => (specEntries env sk sv tk tv kvs).map (fun r => wrapPtrs k (.map .none r))
+       | _, _ => none)
+    | .struct fs =>
+      let (k, core) := stripPtrs env 16 t
+      (match under env s, under env core with
+       | .struct sfs, .struct tfs =>
+         (specImages env sfs.toList tfs.toList fs).map (fun imgs =>
+           wrapPtrs k (.struct (tfs.toList.map (fun (tf, _) =>
+             (tf.name, (imgs.lookup tf.name).getD ((fieldOf (zeroVal env 64 core) tf.name).getD .nil))))))
+       | _, _ => none)
+    | .tok _ _ => none
+    | .absent => none
+
+  def specList (env : TEnv) (se te : Ty) : List Val → Option (List Val)
+    | [] => some []
+    | v :: vs =>
+      match specMap env se te v, specList env se te vs with
+      | some x, some r => some (x :: r)
       | _, _ => none
 
-  def specList (env : TEnv) : Nat → Ty → Ty → List Val → Option (List Val)
-    | 0, _, _, _ => none
-    | _, _, _, [] => some []
-    | fuel+1, se, te, v :: vs => do
-      let x ← specMap env fuel se te v
-      let r ← specList env fuel se te vs
-      pure (x :: r)
+  def specEntries (env : TEnv) (sk sv tk tv : Ty) : List (Val × Val) → Option (List (Val × Val))
+    | [] => some []
+    | (k, v) :: r =>
+      match specMap env sk tk k, specMap env sv tv v, specEntries env sk sv tk tv r with
+      | some k', some v', some rest => some ((k', v') :: rest)
+      | _, _, _ => none
 
-  def specEntries (env : TEnv) : Nat → Ty → Ty → Ty → Ty → List (Val × Val) → Option (List (Val × Val))
-    | 0, _, _, _, _, _ => none
-    | _, _, _, _, _, [] => some []
-    | fuel+1, sk, sv, tk, tv, (k, v) :: r => do
-      let k' ← specMap env fuel sk tk k
-      let v' ← specMap env fuel sv tv v
-      let rest ← specEntries env fuel sk sv tk tv r
-      pure ((k', v') :: rest)
-
-  /-- per target field: the image of the same-named source field; a target field without source keeps the zero value -/
-  def specFields (env : TEnv) : Nat → Ty → List (S × Val) → List (FieldInfo × Ty) → Option (List (S × Val))
-    | 0, _, _, _ => none
-    | _, _, _, [] => some []
-    | fuel+1, s, fs, (tf, tty) :: rest => do
-      let sty : Option Ty := match isStruct env s with
-        | some sfs => (sfs.toList.find? (fun (f, _) => f.name == tf.name)).map (·.2)
-        | none => none
-      let x ← match sty, fs.lookup tf.name with
-        | some st, some sv => specMap env fuel st tty sv
-        | _, _ => some (zeroVal env 64 tty)
-      let r ← specFields env fuel s fs rest
-      pure ((tf.name, x) :: r)
+  /-- the images of the source fields that have a same-named target field (a target field without source keeps the zero value) -/
+  def specImages (env : TEnv) (sfs tfs : List (FieldInfo × Ty)) : List (S × Val) → Option (List (S × Val))
+    | [] => some []
+    | (n, v) :: rest =>
+      match sfs.find? (fun (f, _) => f.name == n), tfs.find? (fun (f, _) => f.name == n) with
+      | some (_, st), some (_, tt) =>
+        (match specMap env st tt v, specImages env sfs tfs rest with
+         | some x, some r => some ((n, x) :: r)
+         | _, _ => none)
+      | _, _ => specImages env sfs tfs rest
 end
 
 end Gv.Spec
